@@ -615,6 +615,8 @@ class Engine:
                 av = bound.get(pn)
                 if isinstance(av, SFloat) and not z3.is_false(z3.simplify(av.nan)):
                     fv.oblige("pre@" + short, "site%d/%s-not-nan" % (site, pn), z3.Not(av.nan), st, node)
+        if cd.options.get("may_raise"):
+            raise VerifError("%s may raise under an unspecified condition (may_raise): calls from verified code are not supported" % cd.qualname)
         if cd.raises is not None:
             g = fv.to_bool(fv.ev(cd.raises, cs, False))
             fv.oblige("no-raise@" + short, "site%d" % site, z3.Not(g), st, node)
